@@ -15,7 +15,7 @@ def initial_heap(prog, fmt):
         wc = prog.get('%s::Reader::with_capacity' % fmt)
     except KeyError:
         return None
-    h = Heap(state='?', complete=False, setc='old', dirty=False, pushed=False, bufclr=False)
+    h = Heap(state='?', complete=False, setc='old', dirty=False, pushed=False, bufclr=False, filled=True)
     if fmt == 'fastq':
         h['inc'] = '?'
     for blk in wc.blocks:
@@ -68,6 +68,7 @@ def explore(prog, fmt):
             hin['dirty'] = False
             hin['pushed'] = False
             hin['bufclr'] = False
+            hin['filled'] = True      # per activation: states left by failed refills are exempt (DESIGN 9.3)
             args = [('rself',)]
             for e in extra:
                 if e == 'rset':
@@ -102,6 +103,7 @@ def hdesc(frozen):
 
 
 def run(prog, R):
+    R.rule('BUF-2', 'within one activation, an end-of-input verdict (buffer().len() < capacity()) is never taken after the buffer was altered (consume/make_room/reserve/seek) without a successful refill in between, and no operation returns successfully with an altered, un-refilled buffer (decided path-sensitively by the abstract interpreter)')
     R.rule('FSM-T', 'every exit of a reading operation that returns a format error leaves the reader in its terminal state (over all reachable abstract states)')
     R.rule('FSM-E', 'from the terminal state every reading operation returns None and changes nothing; an operation returns None only in the terminal state')
     R.rule('FSM-P', 'over all call histories: the reader advances only over a located record and starts a search only when no located record is pending')
@@ -141,6 +143,10 @@ def run(prog, R):
             if cls == 'None':
                 R.add('FSM-E', opfn, 'none-only-when-finished[%s]' % name, d_out['state'] == 'Finished', 'src/%s.rs' % fmt,
                       '%s from (%s) returns None leaving state=%s' % (name, key_in, d_out['state']))
+            # BUF-2 (path-sensitive half): a successful return never leaves an altered, un-refilled buffer
+            if cls in ('Some(Ok)', 'Ok'):
+                R.add('BUF-2', opfn, 'ok-return-has-refilled-buffer[%s]' % name, d_out.get('filled') is not False, 'src/%s.rs' % fmt,
+                      '%s from (%s) returns %s with the buffer %s' % (name, key_in, cls, 'altered and not refilled' if d_out.get('filled') is False else 'filled'))
             # FSM-S*
             if name.startswith('read_record_set_exact'):
                 pushed = d_out.get('setc') == 1
@@ -310,15 +316,18 @@ def flow_rules(prog, R):
 
         def blocks_where(pred):
             return set(x for x in b.cfg.reachable if pred(b.blocks[x]))
-        set_pos = blocks_where(lambda blk: any(s.k == 'assign' and s.place.local == 1 and [p['name'] for p in s.place.proj if p['k'] == 'field'] == ['state'] for s in blk.stmts))
-        # value assigned must be Positioned
-        positioned = True
-        for x in set_pos:
-            for s in b.blocks[x].stmts:
-                if s.k == 'assign' and [p['name'] for p in s.place.proj if p['k'] == 'field'] == ['state']:
-                    rs = roots_of(b, s.rv.ops[0], du) if s.rv.k == 'use' else []
-                    if not any(r[0] == 'agg' and r[1].rv.j.get('variant') == 'Positioned' for r in rs):
-                        positioned = False
+        set_pos = set()
+        other_state = set()
+        for x in b.cfg.reachable:
+            for st in b.blocks[x].stmts:
+                if st.k == 'assign' and st.place.local == 1 and [p['name'] for p in st.place.proj if p['k'] == 'field'] == ['state']:
+                    rs = roots_of(b, st.rv.ops[0], du) if st.rv.k == 'use' else []
+                    if any(r[0] == 'agg' and r[1].rv.j.get('variant') == 'Positioned' for r in rs):
+                        set_pos.add(x)
+                    else:
+                        other_state.add(x)
+        # a different state may only be assigned on paths that do not return successfully
+        positioned = not any(r in b.cfg.reach_from(o, include_start=True) for o in other_state for r in okret)
         reset_partial = blocks_where(lambda blk: any(s.k == 'assign' and s.place.local == 1 and [p['name'] for p in s.place.proj if p['k'] == 'field'] == [partial] for s in blk.stmts))
         reset_buf = set(x for x, t in b.calls() if prog.local_callee_body(t.callee) is not None and 'BufferPosition' in prog.local_callee_body(t.callee).key
                         and t.args and all(r[0] == 'arg' and [q[1] for q in r[-1]] == ['buf_pos'] for r in roots_of(b, t.args[0], du)))
@@ -343,12 +352,39 @@ def flow_rules(prog, R):
                     if ops:
                         rs = roots_of(b, ops[0], du)
                         tgt_ok = bool(rs) and all(q[0] == 'arg' and q[1] == 2 and [f[1] for f in q[-1]] == ['byte'] for q in rs)
-                fill_ok = must(set(x for x, _ in fills)) and all(b.cfg.dominates(sx, fx) for sx, _ in srcseek for fx, _ in fills)
-                ok = ok and tgt_ok and fill_ok
-                det += ', source seeks to Start(to.byte) %s, refilled afterwards %s' % (tgt_ok, fill_ok)
+                ok = ok and tgt_ok and bool(fills)
+                det += ', source seeks to Start(to.byte) %s (that the buffer is refilled before a successful return is BUF-2, decided path-sensitively)' % tgt_ok
             R.add('SEEK-1', b, '%s-branch' % ('far' if far else 'in-buffer'), ok, site(b, b.blocks[r].term.line or b.span['lo']), det)
         # position itself is set to the target
         posw = blocks_where(lambda blk: any(s.k == 'assign' and s.place.local == 1 and [p['name'] for p in s.place.proj if p['k'] == 'field'] == ['position'] for s in blk.stmts))
         R.add('SEEK-1', b, 'position-set-to-target', bool(posw) and all(r not in b.cfg.reach_from(0, removed=posw, include_start=True) for r in okret), site(b, b.span['lo']),
               'self.position is assigned on every successful path')
     R.floor('SEEK-1', 6)
+    # ---------------- SEEK-2: error exits of seek
+    R.rule('SEEK-2', 'once seek has touched the source (the buffer content is gone), every way out of seek - error returns included - has reset the buffer offsets and the partial-search state, or made the reader terminal')
+    for fmt, partial in (('fasta', 'search_pos'), ('fastq', 'incomplete_pos')):
+        try:
+            b = prog.get('%s::Reader::seek' % fmt)
+        except KeyError:
+            continue
+        du = DefUse(b)
+        srcseek = [(x, t) for x, t in b.calls() if t.callee and t.callee.is_('std::io::Seek::seek')]
+        reset_buf = set(x for x, t in b.calls() if prog.local_callee_body(t.callee) is not None and 'BufferPosition' in prog.local_callee_body(t.callee).key
+                        and t.args and all(r[0] == 'arg' and [q[1] for q in r[-1]] == ['buf_pos'] for r in roots_of(b, t.args[0], du)))
+        finished = set()
+        for x in b.cfg.reachable:
+            for st in b.blocks[x].stmts:
+                if st.k == 'assign' and st.place.local == 1 and [p['name'] for p in st.place.proj if p['k'] == 'field'] == ['state']:
+                    rs = roots_of(b, st.rv.ops[0], du) if st.rv.k == 'use' else []
+                    if any(r[0] == 'agg' and r[1].rv.j.get('variant') == 'Finished' for r in rs):
+                        finished.add(x)
+        n = 0
+        for sx, stt in srcseek:
+            n += 1
+            # offsets reset before the source is touched on every path, or after it on every exit
+            before = sx not in b.cfg.reach_from(0, removed=reset_buf, include_start=True)
+            after_escape = [r for r in b.cfg.exits if r in b.cfg.reach_from(sx, removed=reset_buf | finished, include_start=False)]
+            ok = before or not after_escape
+            R.add('SEEK-2', b, 'consistent-on-every-exit#%d' % n, ok, site(b, stt.line),
+                  'after the source was repositioned, seek can return (e.g. with the error of the seek or of the refill) while the buffer offsets still refer to the discarded buffer: %s' % (not ok))
+    R.floor('SEEK-2', 2)
